@@ -739,7 +739,9 @@ HttpStateData::processReplyHeader()
     }
 
     flags.chunked = false;
-    if (newrep->sline.version.protocol == AnyP::PROTO_HTTP && newrep->header.chunked()) {
+    int64_t expectedBodySize = -1;
+    if (newrep->sline.version.protocol == AnyP::PROTO_HTTP && newrep->header.chunked() &&
+            newrep->expectingBody(request->method, expectedBodySize)) {
         flags.chunked = true;
         httpChunkDecoder = new Http1::TeChunkedParser;
     }
@@ -1161,10 +1163,10 @@ HttpStateData::persistentConnStatus() const
 
         if (payloadSeen < vrep->content_length)
             return INCOMPLETE_MSG;
-
-        if (payloadTruncated > 0) // already read more than needed
-            return COMPLETE_NONPERSISTENT_MSG; // disable pconns
     }
+
+    if (payloadTruncated > 0) // already read more than needed
+        return COMPLETE_NONPERSISTENT_MSG; // disable pconns
 
     /** \par
      * If there is no message body or we got it all, we can be persistent */
@@ -1403,8 +1405,10 @@ HttpStateData::truncateVirginBody()
 
     HttpReply *vrep = virginReply();
     int64_t clen = -1;
-    if (!vrep->expectingBody(request->method, clen) || clen < 0)
-        return; // no body or a body of unknown size, including chunked
+    if (!vrep->expectingBody(request->method, clen))
+        clen = 0; // a bodyless reply: whatever follows its header is not ours to relay
+    else if (clen < 0)
+        return; // a body of unknown size, including chunked
 
     if (payloadSeen - payloadTruncated <= clen)
         return; // we did not read too much or already took care of the extras
